@@ -237,4 +237,4 @@ def check_case(case):
 
 def run(tier="quick", seed=0):
     return common.run("bounded.C20", cases(tier, seed), bound="one input per (entry point, precondition, margin, ballot position)", rule=RULE,
-                      budget_s=150)
+                      budget_s=600)
